@@ -207,7 +207,11 @@ class C04(EngineProp):
                 if type(e.exception) is not type(ex) or str(e.exception) != str(ex):
                     r.v("failed_event_other_exception", event_exc=repr(e.exception)[:60], run_exc=repr(ex)[:60])
         if rec.publish_left:
-            r.v("publish_queue_not_empty_after_terminal", left=rec.publish_left, outcome=kind)
+            left_types = getattr(rec, "publish_left_types", [])
+            # what is left: events a step wrote itself (ctx.write_event_to_stream -> Note) and step-state telemetry, or something else
+            # (e.g. a second terminal event)
+            r.v("publish_queue_not_empty_after_terminal", left=rec.publish_left, outcome=kind, left_types=left_types,
+                only_step_written_events=bool(left_types) and set(left_types) <= {"Note", "StepStateChanged"})
         # how many workers were running at the terminal tick
         par = 0
         if rec.ticks:
